@@ -38,6 +38,7 @@ ASSUMPTIONS = ["datetime / timedelta / Fraction of the standard library are the 
                "GUI / green-thread scheduler classes are constructed with a stub toolkit object (their `now` does not use it)"]
 CASES = {"quick": 20000, "thorough": 2000000}
 REQUIRED = {
+    "far_datetime_cases": {"quick": 1500, "thorough": 150000},
     "aligned_roundtrips": {"quick": 9000, "thorough": 900000},
     "monotone_pairs": {"quick": 3000, "thorough": 300000},
     "set:zones": 7,
@@ -383,15 +384,67 @@ def run_case(seed: int, idx: int, res: UnitResult) -> None:
                                         "trace": traceback.format_exc()[-900:]}, rep)
 
 
+
+# ------------------------------------------------------------------ datetime <-> timedelta over the whole datetime range
+# These two representations are both integer microseconds, so their conversion is exact for EVERY representable aware
+# datetime (year 1 .. 9999), not only inside the float-safe +-2**31 s band used above.
+
+def far_datetime_case(seed: int, idx: int, res: UnitResult) -> None:
+    r = case_rng(seed, ID, "far", idx)
+    cls = _conv_class(r.choice(["Scheduler", "VirtualTimeScheduler", "HistoricalScheduler", "TestScheduler"]))
+    lo = _dt.datetime(1, 1, 2, tzinfo=UTC)
+    hi = _dt.datetime(9999, 12, 30, tzinfo=UTC)
+    span_us = us_of_td(hi - lo)
+    pick = r.random()
+    if pick < 0.15:
+        k = r.choice([0, 1, span_us - 1, span_us])
+    elif pick < 0.5:
+        k = r.randrange(span_us)
+    else:
+        # far from the epoch (beyond 2**53 us a float can no longer hold whole microseconds) with a non-zero microsecond part
+        k = r.choice([r.randrange(0, span_us // 8), r.randrange(span_us - span_us // 4, span_us)]) | 1
+    d = lo + _dt.timedelta(microseconds=k)
+    tz = r.choice([UTC, _dt.timezone(_dt.timedelta(hours=5, minutes=30)), _dt.timezone(_dt.timedelta(hours=-8))])
+    d_in = d.astimezone(tz) if _dt.datetime(2, 1, 1, tzinfo=UTC) < d < _dt.datetime(9999, 1, 1, tzinfo=UTC) else d
+    case = {"class": cls.__name__, "datetime": d_in.isoformat()}
+    res.count("far_datetime_cases")
+    problem = None
+    try:
+        td = cls.to_timedelta(d_in)
+        exact = d - E0
+        if td != exact:
+            problem = ("C36:to_timedelta:datetime:inexact-far-from-epoch", {"got_us": us_of_td(td), "expected_us": us_of_td(exact)})
+        else:
+            back = cls.to_datetime(td)
+            if back != d or not is_aware_utc(back):
+                problem = ("C36:roundtrip:datetime-timedelta-datetime:far-from-epoch", {"back": str(back)})
+            else:
+                d2 = d + _dt.timedelta(microseconds=1)
+                if not cls.to_timedelta(d2) > td:
+                    problem = ("C36:order:to_timedelta:datetime:far-from-epoch", {"next": d2.isoformat()})
+        if problem is None and cls.to_datetime(d_in) != d:
+            problem = ("C36:to_datetime:datetime-identity", {"got": str(cls.to_datetime(d_in))})
+    except Exception as e:  # noqa: BLE001
+        problem = ("C36:conversion-raised:far-from-epoch", {"exc": repr(e)})
+    res.case(key=case, nontrivial=True, sample=case if idx % 500 == 0 else None)
+    if problem:
+        problem[1]["case"] = case
+        res.violation(problem[0], problem[1], {"seed": seed, "idx": idx, "family": "far"})
+
 def run_unit(unit: dict, res: UnitResult) -> None:
     if _time.localtime(0).tm_hour == 0 and _time.localtime(0).tm_min == 0:
         res.inconclusive.append("self-check: local time zone equals UTC; local-time mistakes would be invisible")
     check_now(res, {"seed": unit["seed"], "idx": -1})
     for idx in range(unit["lo"], unit["hi"]):
         run_case(unit["seed"], idx, res)
+        if idx % 10 == 0:
+            far_datetime_case(unit["seed"], idx, res)
 
 
 def replay(rep: dict, res: UnitResult) -> None:
+    if rep.get("family") == "far":
+        far_datetime_case(rep["seed"], rep["idx"], res)
+        return
     if rep["idx"] < 0:
         check_now(res, {"seed": rep["seed"], "idx": -1})
     else:
